@@ -14,11 +14,14 @@ structure St where
 
 def step (σ : St) (op obs : List String) : St × List Msg :=
   match op, obs with
-  | ["race", aid, a, b], [pv, groups] =>
+  | [kind, aid, a, b], [pv, groups] =>
+    if kind ≠ "race" ∧ kind ≠ "racei" ∧ kind ≠ "stale" then (σ, [.diff "parse" "?" kind]) else
     let id := toNat! aid
     -- the second submission starts once the first is stored; with the store-and-publish step atomic the
     -- first one has the lock until it has published
-    let puts := σ.puts ++ [(id, a), (id, b)]
+    -- `stale`: what the provider keeps of two sequential submissions with inverted stamps is decided by
+    -- Alert.Merge / Put (C13); here the stored version is an input and only "group = provider" is checked
+    let puts := if kind = "stale" then σ.puts ++ [(id, pv)] else σ.puts ++ [(id, a), (id, b)]
     let tr := atomicTrace puts
     let mStored := (stored id tr).getD "none"
     let gv := ((splitList "," groups).filterMap fun kv =>
@@ -27,7 +30,7 @@ def step (σ : St) (op obs : List String) : St × List Msg :=
       | _ => none).headD "none"
     let pf := if gv = pv then [] else
       [Msg.propfail "group_holds_stored_version" "publish-reorder" s!"alert={id} provider holds {pv}, its group holds {gv}"]
-    ({ puts }, expectEq "race.stored" mStored pv ++ expectEq "race.group" ((applied id tr).getD "none") gv ++ pf ++ [.tag "race"])
+    ({ puts }, expectEq "race.stored" mStored pv ++ expectEq "race.group" ((applied id tr).getD "none") gv ++ pf ++ [.tag kind])
   | _, _ => (σ, [.diff "parse" "?" (" ".intercalate op)])
 
 def engine : Engine St where
